@@ -47,10 +47,10 @@ STAGE_A = {
         ("N5-P1-V1-M3 (1 of 4)", consts(N=5, V=1, M=3, Mx=4, CAs={0, 1, 2}, PAs={1, 2}, NSlices=4), INVS),
         # NSlices > 1 in stage A: one slice of the initial states (chosen by the seed) is model-checked
         ("N6-P1-V1-M2 (1 of 32)", consts(N=6, V=1, M=2, Mx=5, CAs={1}, PAs={2}, NSlices=32), INVS),
-        ("N3-P2-V2-equal (1 of 16)", consts(N=3, P=2, V=2, Mx=3, CAs={0, 2}, PAs={1}, BetaSel="equal", PBs={0, 1}, NSlices=16), INVS),
+        ("N3-P2-V2-equal (1 of 32)", consts(N=3, P=2, V=2, Mx=3, CAs={0, 2}, PAs={1}, BetaSel="equal", PBs={0, 1}, NSlices=32), INVS),
         ("N3-P2-V1-general", consts(N=3, P=2, V=1, Mx=3, CAs={0, 1}, PAs={1}, BetaSel="general", PBs={0, 1}),
          INVS + ["RefIsOpt"]),
-        ("N4-P2-V1-general (1 of 16)", consts(N=4, P=2, V=1, Mx=3, CAs={1}, PAs={1}, BetaSel="general", PBs={0}, NSlices=16), INVS),
+        ("N4-P2-V1-general (1 of 64)", consts(N=4, P=2, V=1, Mx=3, CAs={1}, PAs={1}, BetaSel="general", PBs={0}, NSlices=64), INVS),
         ("N2-P3-V1-general", consts(N=2, P=3, V=1, Mx=2, CAs={0, 1}, PAs={1}, BetaSel="general", PBs={0, 1}),
          INVS + ["RefIsOpt"]),
     ],
@@ -61,10 +61,10 @@ STAGE_B = {
     "quick": [("N4-P1-V2", consts(N=4, V=2, Mx=3), 256, [0, 1, 2, 3]),
               ("N5-P1-V1", consts(N=5, V=1, Mx=4, CAs={0, 1}, PAs={1, 2}), 256, [0, 1, 2, 3]),
               ("N3-P2-V1", consts(N=3, P=2, V=1, Mx=3, CAs={0, 1}, PAs={1}, BetaSel="general", PBs={0, 1}), 128, [0, 1, 2, 3])],
-    "thorough": [("N4-P1-V2", consts(N=4, V=2, Mx=3), 64, None),
-                 ("N5-P1-V1", consts(N=5, V=1, Mx=5, CAs={0, 1, 2}, PAs={1, 2}), 64, None),
-                 ("N3-P2-V1", consts(N=3, P=2, V=1, Mx=3, CAs={0, 1}, PAs={1}, BetaSel="general", PBs={0, 1}), 64, None),
-                 ("N4-P2-V1", consts(N=4, P=2, V=1, Mx=3, CAs={1}, PAs={1}, BetaSel="general", PBs={0}), 256, list(range(32)))],
+    "thorough": [("N4-P1-V2", consts(N=4, V=2, Mx=3), 64, list(range(16))),
+                 ("N5-P1-V1", consts(N=5, V=1, Mx=5, CAs={0, 1, 2}, PAs={1, 2}), 64, list(range(16))),
+                 ("N3-P2-V1", consts(N=3, P=2, V=1, Mx=3, CAs={0, 1}, PAs={1}, BetaSel="general", PBs={0, 1}), 64, list(range(16))),
+                 ("N4-P2-V1", consts(N=4, P=2, V=1, Mx=3, CAs={1}, PAs={1}, BetaSel="general", PBs={0}), 2048, list(range(4)))],
 }
 
 
@@ -292,6 +292,9 @@ def record_r3(seed, count, nmax):
                     S[(s, e)] = [float(x) for x in ref.evaluate(np.array([[s, e]]))[0]]
         pref = L2Saving().fit(X)
         Spt = {(s, s + 1): [float(x) for x in pref.evaluate(np.array([[s, s + 1]]))[0]] for s in range(n)}
+        # integer-valued data go to the detector as int64 half of the time (tables are recorded from the float copy)
+        Xf = X
+        X = X.astype(np.int64) if np.all(X == np.round(X)) and rng.integers(0, 2) else X
         try:
             if use_capa:
                 det = CAPA(collective_saving=mk(), point_saving=L2Saving(), collective_penalty_scale=cscale,
